@@ -49,8 +49,9 @@ def run(ctx):
     rest = [s for s in scripts if leaves(s) > 2]
     # skeletons that exercise scoping are preferred in the sample: a directive or an `or` next to a group
     scoped = [s for s in rest if ("(" in s or "-(" in s) and ("c" in s or "t" in s or "or" in s)]
-    n = ctx.pick(170, 4000)
-    pick = small + rng.sample(scoped, min(len(scoped), n * 2 // 3)) + rng.sample(rest, min(len(rest), n // 3))
+    n = ctx.pick(100, 3600)
+    pick = (rng.sample(small, min(len(small), ctx.pick(30, 10 ** 6))) + rng.sample(scoped, min(len(scoped), n * 2 // 3))
+            + rng.sample(rest, min(len(rest), n // 3)))
     ctx.log("skeletons from TLC: %d (%d with <= 2 leaves), used %d" % (len(scripts), len(small), len(pick)))
     inp = ctx.path("skeletons.ndjson")
     vk.write_ndjson(inp, pick)
